@@ -385,8 +385,6 @@ def rule_inval_source(ctx):
             continue
         iv = fi.params[1]
         n += 1
-        if fi.fq == 'sc3.seq.patterns.eventpatterns:Pchain.__embed__':
-            continue      # composition: the output of each chained stream is the input of the next, by definition of Pchain
         bad = [norm(x) for x in walk_local(fi.node) if isinstance(x, ast.Assign) and any(isinstance(t, ast.Name) and t.id == iv for t in x.targets)
                and isinstance(x.value, ast.Call) and isinstance(x.value.func, ast.Attribute) and x.value.func.attr == 'next']
         ctx.ob('C13.inval', f'{fi.fq}:in-value-from-consumer', not bad,
@@ -531,6 +529,9 @@ def run(ctx):
 
 
 MUTANTS = [
+    dict(rule='C13.inval', name='(fix reverted) Pchain threads the chained output through the name of the in-event', file='sc3/seq/patterns/eventpatterns.py',
+         old="                outevent = inevent.copy()\n                for stream in streams:\n                    outevent = stream.next(outevent)\n                inevent = yield outevent",
+         new="                inevent = inevent.copy()\n                for stream in streams:\n                    inevent = stream.next(inevent)\n                inevent = yield inevent"),
     dict(rule='C13.inval', name='Pdrop feeds the dropped output back as in-value (fix reverted)', file='sc3/seq/patterns/filterpatterns.py',
          old="                stream.next(inval)  # The dropped value is not the in value.", new="                inval = stream.next(inval)"),
     dict(rule='C13.once', name='Pproduct yields its working list (fix reverted)', file='sc3/seq/patterns/funcpatterns.py',
